@@ -42,3 +42,18 @@ func VerifC26LooksLikeJUnit(data []byte) bool {
 func VerifC26ParseOutput(runError error, target *core.BuildTarget, resultsData [][]byte) core.TestSuite {
 	return parseTestOutput("", "", runError, time.Millisecond, target, resultsData)
 }
+
+// VerifC26ReadResultsDir is readTestResultsDir: the bytes of every file under a results file or
+// directory, in walk order.
+func VerifC26ReadResultsDir(path string) ([][]byte, error) {
+	return readTestResultsDir(path)
+}
+
+// VerifC26ParseResultsFile is parseTestResultsFile: what the cached path of test() re-reads from
+// target.TestResultsFile().
+func VerifC26ParseResultsFile(path string) (core.TestSuite, error) {
+	return parseTestResultsFile(path)
+}
+
+// VerifC26DummyOutput is the content moveOutputFile stores when the test left no results file.
+const VerifC26DummyOutput = dummyOutput
